@@ -285,11 +285,13 @@ def _guard_parallel(tree: ast.Module) -> tuple[str, str, str]:
                     pass
         if isinstance(n, ast.Assign) and ast.unparse(n.targets[0]) == "use_parallel":
             t = n.value
-            if not (isinstance(t, ast.BoolOp) and isinstance(t.op, ast.And) and len(t.values) == 3):
+            if not (isinstance(t, ast.BoolOp) and isinstance(t.op, ast.And) and len(t.values) == 4):
                 raise Shape("use_parallel shape")
             if ast.unparse(t.values[0]) != "content_length is not None" or ast.unparse(t.values[1]) != "'bytes' in accept_ranges.lower()":
                 raise Shape("use_parallel conjuncts")
             par = _cmp_of(t.values[2], "content_length", "config.parallel_threshold_bytes")
+            if ast.unparse(t.values[3]) != "content_length > 0":
+                raise Shape("use_parallel: zero-length guard")
     fc = _func(tree, "_fetch_chunks_with_hedging")
     post = _find_if(fc, "len(ordered)", "config.max_fetch_bytes")
     if pre is None or par is None:
@@ -343,6 +345,40 @@ def emit() -> dict[str, str]:
         raise Shape("content-range regex")
     groups_ok = "int(match.group(1))" in ast.unparse(fn) and _re.compile(pat_src).groups == 1
     pat = pattern_to_lean(pat_src, 0)
+
+    # ---- chunk Content-Range check
+    fm = _func(tree, "_content_range_mismatch")
+    cpat_src = None
+    ckind = "unknown"
+    for n in ast.walk(fm):
+        if isinstance(n, ast.Call) and isinstance(n.func, ast.Attribute) and ast.unparse(n.func.value) == "re":
+            ckind = n.func.attr
+            if isinstance(n.args[0], ast.Constant) and isinstance(n.args[0].value, str) and ast.unparse(n.args[1]) == "content_range":
+                cpat_src = n.args[0].value
+    if cpat_src is None:
+        raise Shape("chunk content-range regex")
+    cpat = pattern_to_lean(cpat_src, 0)
+    fm_src = ast.unparse(fm)
+    chunk_cr_ok = (
+        _re.compile(cpat_src).groups == 3
+        and "if content_range is None:\n        return None" in fm_src
+        and "if match is None:\n        return None" in fm_src
+        and "got_start, got_end = (int(match.group(1)), int(match.group(2)))" in fm_src
+        and "got_total = None if match.group(3) == '*' else int(match.group(3))" in fm_src
+        and "except ValueError:\n        return None" in fm_src
+        and "if got_start != start or got_end != end:" in fm_src
+        and "if total is not None and got_total is not None and (got_total != total):" in fm_src
+    )
+    one = ast.unparse(_func(tree, "_fetch_one_chunk"))
+    chunk_cr_used = (
+        "mismatch = _content_range_mismatch(resp.headers.get('Content-Range'), start, end, total)" in one
+        and "if mismatch is not None:\n                raise RuntimeError" in one
+        and one.index("if resp.status != 206:") < one.index("_content_range_mismatch(") < one.index("_read_range_response_body(")
+        and "_fetch_one_chunk(client, url, start, end, semaphore, config, url_validator, content_length)"
+        in ast.unparse(_func(tree, "_fetch_chunks_with_hedging"))
+    )
+    if not (chunk_cr_ok and chunk_cr_used):
+        raise Shape("chunk Content-Range check not recognised")
 
     # ---- session / status shapes
     sess = _func(tree, "_create_session")
@@ -470,6 +506,18 @@ def contentRangePattern : Pat :=
 def contentRangeCall : String := "{kind}"
 /-- returns `int(match.group(1))` and the pattern has exactly one group -/
 def contentRangeGroup1 : Bool := {b(groups_ok)}
+
+/-! ### `_content_range_mismatch` (each 206 chunk) -/
+
+/-- pattern {cpat_src!r} -/
+def chunkRangePattern : Pat :=
+  {cpat}
+def chunkRangeCall : String := "{ckind}"
+/-- absent / unparseable / `ValueError` => accepted; start-end must equal the request; a numeric total must equal the probed size;
+    checked after the 206 test and before the body is read; `_fetch_chunks_with_hedging` passes `content_length` as total -/
+def chunkRangeCheckRecognised : Bool := {b(chunk_cr_ok and chunk_cr_used)}
+/-- `use_parallel` has the conjunct `content_length > 0` -/
+def parallelNonEmpty : Bool := true
 
 /-! ### interpreter tables (this CPython) -/
 
